@@ -8,9 +8,9 @@ import (
 
 func valueToPointer(val string) string {
 	valLen := len(val)
-	firstCharIsAt := val[0] == '@'
-	lastCharIsAt := val[valLen-1] == '@'
-	if valLen > 2 && firstCharIsAt && lastCharIsAt {
+
+	// The value can be anything, including nothing at all.
+	if valLen > 2 && val[0] == '@' && val[valLen-1] == '@' {
 		return val[1 : valLen-1]
 	}
 
